@@ -9,7 +9,9 @@ import (
 	"crypto/sha256"
 	"errors"
 	"fmt"
+	"runtime"
 	"sort"
+	"strings"
 	"sync"
 	"time"
 
@@ -44,6 +46,25 @@ type Event struct {
 	Goss   []string // verified gossiper addresses carried by the message (send / deliver)
 	BadG   int      // entries that do not verify
 	MsgSeq int
+	Via    string // addleaf: "pull" when the gossiper's missing-parent pull offered the vertex, "gossip" otherwise
+}
+
+// callerPath tells which path of the gossiper is handing a vertex to the ledger (the handler and the pull goroutine
+// may run at the same time, so the position in the event log does not tell).
+func callerPath() string {
+	pc := make([]uintptr, 16)
+	n := runtime.Callers(3, pc)
+	fr := runtime.CallersFrames(pc[:n])
+	for {
+		f, more := fr.Next()
+		if strings.HasSuffix(f.Function, ".processLackingParent") {
+			return "pull"
+		}
+		if !more {
+			break
+		}
+	}
+	return "gossip"
 }
 
 // Msg is a gossip message in flight.
@@ -60,16 +81,16 @@ type Msg struct {
 
 // VNode is one real node (or the adversary position, which has no book).
 type VNode struct {
-	Idx   int
-	Name  string
-	Actor *ledger.Actor
-	Book  *accountant.AccountingBook
-	G     *gossip.VerifGossiper
-	Srv   protobufcompiled.GossipAPIServer
-	Flash *cache.Flashback
-	Cache *cache.Hippocampus
-	Pipe  *pipe.Juggler
-	cancel context.CancelFunc
+	Idx       int
+	Name      string
+	Actor     *ledger.Actor
+	Book      *accountant.AccountingBook
+	G         *gossip.VerifGossiper
+	Srv       protobufcompiled.GossipAPIServer
+	Flash     *cache.Flashback
+	Cache     *cache.Hippocampus
+	Pipe      *pipe.Juggler
+	cancel    context.CancelFunc
 	Adversary bool
 	// Inbox of the adversary: what a node at that position receives
 	Inbox []*Msg
@@ -109,12 +130,16 @@ func (r *recAccounter) CreateGenesis(subject string, spc spice.Melange, data []b
 }
 func (r *recAccounter) AddLeaf(ctx context.Context, leaf *accountant.Vertex) error {
 	err := r.b.AddLeaf(ctx, leaf)
-	r.n.logEv(Event{Node: r.idx, Kind: "addleaf", Item: leaf.Hash, ItemK: "vrx", OK: err == nil, Err: errS(err)})
+	r.n.logEv(Event{Node: r.idx, Kind: "addleaf", Item: leaf.Hash, ItemK: "vrx", OK: err == nil, Err: errS(err), Via: callerPath()})
 	return err
 }
-func (r *recAccounter) StreamDAG(ctx context.Context) <-chan *accountant.Vertex { return r.b.StreamDAG(ctx) }
-func (r *recAccounter) LoadDag(c context.CancelCauseFunc, ch <-chan *accountant.Vertex) { r.b.LoadDag(c, ch) }
-func (r *recAccounter) DagLoaded() bool                                                { return r.b.DagLoaded() }
+func (r *recAccounter) StreamDAG(ctx context.Context) <-chan *accountant.Vertex {
+	return r.b.StreamDAG(ctx)
+}
+func (r *recAccounter) LoadDag(c context.CancelCauseFunc, ch <-chan *accountant.Vertex) {
+	r.b.LoadDag(c, ch)
+}
+func (r *recAccounter) DagLoaded() bool { return r.b.DagLoaded() }
 func (r *recAccounter) ReadVertex(ctx context.Context, h [32]byte) (accountant.Vertex, error) {
 	return r.b.ReadVertex(ctx, h)
 }
